@@ -38,6 +38,9 @@ for _n in (2, 3, 4, 5, 6, 7, 8):
     WORDS += ["a" * _n + "\nx", "x\n" + "a" * _n, "a" * _n + "\n" + "b" * _n]
 for _n in (2043, 2044, 2045, 2046, 2047, 2048):
     WORDS += ["a" * _n + "\nx", "x\n" + "a" * _n, "a" * _n + "\ny'z", "x\"y\n" + "a" * _n]
+# characters beyond ASCII whose low seven bits are those of a significant ASCII character (LF, CR, blank, quotes, brackets,
+# semicolon, hash, underscore, dollar): they are ordinary characters
+WORDS += ["\u4e0a", "\u4e0d\u9519", "abc\u4e0adef\nsecond line", "\u0427\u0422 x", "\u0420", "a\u0420b", "\u045b\u045d", "\u043bx", "\u0423x", "\u045fx", "\u0424x", "\u010a", "x\u0427", "\u0422y"]
 WORDS = list(dict.fromkeys(WORDS))
 
 
